@@ -9,7 +9,7 @@ use serde::{Deserialize, Serialize};
 use serde_json::{json, Value as Json};
 use std::cell::RefCell;
 use std::collections::HashMap;
-use vcommon::pool::{draw_item, Item};
+use vcommon::pool::{draw_item, twin_with_other_format, Item};
 use vcommon::Rng;
 
 pub struct C05H;
@@ -186,7 +186,14 @@ fn draw_steps(rng: &mut Rng, index: u64) -> Vec<Step> {
     let mut steps: Vec<Step> = vec![];
     for k in 0..n {
         let as_subject = !subjects.is_empty() && (k + 1 == n || rng.chance(1, 3));
-        let item = if as_subject { rng.pick(&subjects).clone() } else { draw_item(rng) };
+        let item = if as_subject {
+            rng.pick(&subjects).clone()
+        } else if !subjects.is_empty() && rng.chance(1, 5) {
+            // a predecessor that is a subject's twin under another output format
+            twin_with_other_format(rng.pick(&subjects), rng)
+        } else {
+            draw_item(rng)
+        };
         let mut plan = FaultPlan::default();
         if !as_subject && !item.files.is_empty() && rng.chance(1, 4) {
             // abort this predecessor with a loader failure somewhere in its first lookups
